@@ -82,8 +82,22 @@ fn observe_decode(rec: &mut Recorder, ms: &[Member]) {
 
 fn rand_string(rng: &mut Prng) -> String {
     let pool: [&str; 16] = ["a", "Z", " ", "\"", "\\", "/", "\u{0}", "\n", "\t", "\u{7f}", "é", "\u{2028}", "😀", "\u{10FFFF}", "\u{1}", "}"];
-    let n = rng.below(12);
-    (0..n).map(|_| *rng.pick(&pool)).collect()
+    // mostly short, escape-heavy strings; sometimes long runs that need no escaping (buffer boundaries of any writer)
+    match rng.below(10) {
+        0 => {
+            let n = *rng.pick(&[127usize, 128, 129, 255, 256, 257, 511, 512, 1000, 4096, 70000]);
+            let c = *rng.pick(&["x", "Z", "é"]);
+            c.repeat(n)
+        }
+        1 => {
+            let n = *rng.pick(&[255usize, 256, 300, 1024]);
+            (0..n).map(|_| *rng.pick(&pool)).collect()
+        }
+        _ => {
+            let n = rng.below(12);
+            (0..n).map(|_| *rng.pick(&pool)).collect()
+        }
+    }
 }
 
 fn rand_ts(rng: &mut Prng) -> jiff::Timestamp {
